@@ -8,8 +8,10 @@ import (
 	"os"
 	"os/exec"
 	"path/filepath"
+	"math"
 	"strings"
 	"sync"
+	"sync/atomic"
 	"syscall"
 	"time"
 )
@@ -59,6 +61,35 @@ type Worker struct {
 	pending string
 	pf      *os.File
 	sinceFl int
+
+	// CaseCPULimit, when set before the first Begin, arms a watchdog that ends the
+	// process once the case between Begin and End has used more than this many
+	// seconds of process CPU time (a loop that never returns cannot report itself).
+	// CPU time, not wall time: a loaded machine does not trip it.
+	CaseCPULimit float64
+	wdOnce       sync.Once
+	caseSeq      atomic.Int64 // odd while a case is pending
+	caseCPU0     atomic.Uint64
+	note         atomic.Value
+}
+
+// Note names the step of the pending case (shown when the watchdog fires).
+func (w *Worker) Note(step string) { w.note.Store(step) }
+
+func (w *Worker) watchdog() {
+	for {
+		time.Sleep(200 * time.Millisecond)
+		seq := w.caseSeq.Load()
+		if seq%2 == 0 {
+			continue
+		}
+		used := CPUSeconds() - math.Float64frombits(w.caseCPU0.Load())
+		if used > w.CaseCPULimit && w.caseSeq.Load() == seq {
+			step, _ := w.note.Load().(string)
+			os.WriteFile(filepath.Join(w.Dir, "cpu_exceeded"), []byte(fmt.Sprintf("%.1f\n%s\n", used, step)), 0o644)
+			os.Exit(7)
+		}
+	}
 }
 
 type jobFile struct {
@@ -131,12 +162,20 @@ func (w *Worker) Begin(caseID string, input []byte) {
 	buf = append(buf, '\n')
 	buf = append(buf, input...)
 	w.pf.WriteAt(buf, 0)
+	if w.CaseCPULimit > 0 {
+		w.caseCPU0.Store(math.Float64bits(CPUSeconds()))
+		w.caseSeq.Add(1)
+		w.wdOnce.Do(func() { go w.watchdog() })
+	}
 }
 
 var zero8 [8]byte
 
 // End marks the case as survived.
 func (w *Worker) End() {
+	if w.CaseCPULimit > 0 && w.caseSeq.Load()%2 == 1 {
+		w.caseSeq.Add(1)
+	}
 	if w.pf != nil {
 		w.pf.WriteAt(zero8[:], 0)
 	}
@@ -263,6 +302,10 @@ type Crash struct {
 	Stderr   string
 	ExitInfo string
 	TimedOut bool
+	// CPUExceeded > 0: the worker's per-case CPU watchdog ended the process after
+	// that many CPU seconds inside the pending case; CPUStep is the step it was in.
+	CPUExceeded float64
+	CPUStep     string
 }
 
 // RunJobs executes every job in its own child process (same binary,
@@ -361,6 +404,13 @@ func (r *Run) RunJobs(jobs []Job, opts ChildOpts, onCrash func(c Crash)) {
 				}
 				if sb, err := os.ReadFile(filepath.Join(dir, "stderr")); err == nil {
 					c.Stderr = headTail(string(sb), 3000, 1500)
+				}
+				if cb, err := os.ReadFile(filepath.Join(dir, "cpu_exceeded")); err == nil {
+					parts := strings.SplitN(string(cb), "\n", 3)
+					fmt.Sscanf(parts[0], "%f", &c.CPUExceeded)
+					if len(parts) > 1 {
+						c.CPUStep = parts[1]
+					}
 				}
 				if onCrash != nil {
 					onCrash(c)
